@@ -61,6 +61,14 @@ func isLoadOf(v ssa.Value, f *types.Var) bool {
 // MakeClosure site.
 func resolveFree(v ssa.Value) ssa.Value {
 	for i := 0; i < 6; i++ {
+		if prm, isP := v.(*ssa.Parameter); isP {
+			// parameter of a function literal with a single call site (go/defer/call of the literal itself)
+			if a := litParamBinding(prm); a != nil {
+				v = a
+				continue
+			}
+			return v
+		}
 		fv, ok := v.(*ssa.FreeVar)
 		if !ok {
 			return v
@@ -265,6 +273,11 @@ func timerOf(ch ssa.Value) *timerSrc {
 				if c, ok := fa.X.(*ssa.Call); ok && funcIs(calleeObj(c), "time", "", "NewTicker") {
 					a := c.Common().Args[0]
 					return &timerSrc{Kind: "ticker", Call: c, Field: loadedField(unspill(a)), Arg: a}
+				}
+				// time.NewTimer(d).C fires once after d, like time.After(d)
+				if c, ok := fa.X.(*ssa.Call); ok && funcIs(calleeObj(c), "time", "", "NewTimer") {
+					a := c.Common().Args[0]
+					return &timerSrc{Kind: "after", Call: c, Field: loadedField(unspill(a)), Arg: a}
 				}
 			}
 		}
@@ -733,4 +746,203 @@ func isGlobalLoad(v ssa.Value, g *ssa.Global) bool {
 func staticCallTo(in ssa.Instruction, fn *ssa.Function) bool {
 	c, ok := in.(*ssa.Call)
 	return ok && fn != nil && c.Common().StaticCallee() == fn
+}
+
+// condAssumption: taking the edge (cond == pol) pins the boolean SSA value
+// underneath the negations.
+func condAssumption(cond ssa.Value, pol bool) map[ssa.Value]bool {
+	for {
+		u, ok := cond.(*ssa.UnOp)
+		if ok && u.Op == token.NOT {
+			cond, pol = u.X, !pol
+			continue
+		}
+		break
+	}
+	return map[ssa.Value]bool{cond: pol}
+}
+
+// pathCountAssuming is pathCount restricted to the paths that are consistent
+// with the assumed values of boolean SSA values: at an If on an assumed value
+// (possibly negated) only the matching successor is followed.
+func pathCountAssuming(from *ssa.BasicBlock, match func(ssa.Instruction) bool, stop func(*ssa.BasicBlock) bool, assume map[ssa.Value]bool) (min, max int) {
+	type res struct {
+		min, max int
+		ok       bool
+	}
+	memo := map[*ssa.BasicBlock]res{}
+	onstack := map[*ssa.BasicBlock]bool{}
+	var walk func(b *ssa.BasicBlock) res
+	walk = func(b *ssa.BasicBlock) res {
+		if stop != nil && stop(b) && b != from {
+			return res{0, 0, true}
+		}
+		if r, ok := memo[b]; ok {
+			return r
+		}
+		onstack[b] = true
+		n := 0
+		for _, in := range b.Instrs {
+			if match(in) {
+				n++
+			}
+		}
+		r := res{-1, -1, false}
+		if len(b.Succs) == 0 {
+			r = res{0, 0, true}
+		}
+		succs := b.Succs
+		if iff := ifOf(b); iff != nil && len(b.Succs) == 2 {
+			c, pol := ssa.Value(iff.Cond), true
+			for {
+				u, ok := c.(*ssa.UnOp)
+				if ok && u.Op == token.NOT {
+					c, pol = u.X, !pol
+					continue
+				}
+				break
+			}
+			if v, known := assume[c]; known {
+				if v == pol {
+					succs = b.Succs[:1]
+				} else {
+					succs = b.Succs[1:]
+				}
+			}
+		}
+		for _, s := range succs {
+			if isBackEdge(b, s) || onstack[s] {
+				if stop != nil && stop(s) {
+					if !r.ok || 0 < r.min {
+						r.min = 0
+					}
+					if !r.ok || r.max < 0 {
+						r.max = 0
+					}
+					r.ok = true
+				}
+				continue
+			}
+			sr := walk(s)
+			if !sr.ok {
+				continue
+			}
+			if !r.ok || sr.min < r.min {
+				r.min = sr.min
+			}
+			if !r.ok || sr.max > r.max {
+				r.max = sr.max
+			}
+			r.ok = true
+		}
+		if r.ok {
+			r.min += n
+			r.max += n
+		}
+		onstack[b] = false
+		memo[b] = r
+		return r
+	}
+	r := walk(from)
+	if !r.ok {
+		return 0, 0
+	}
+	return r.min, r.max
+}
+
+// deferredIn: the instruction `in` runs exactly once at every exit of fn that
+// follows the returned Defer: it is that Defer itself (defer close(ch)), or it
+// sits unconditionally (dominating every return, outside loops) in a function
+// literal whose only use is being deferred by fn.  nil otherwise.
+func deferredIn(fn *ssa.Function, in ssa.Instruction) *ssa.Defer {
+	if d, ok := in.(*ssa.Defer); ok {
+		if d.Parent() == fn {
+			return d
+		}
+		return nil
+	}
+	if _, isGo := in.(*ssa.Go); isGo {
+		return nil
+	}
+	lit := in.Parent()
+	if lit == nil || lit.Parent() != fn || in.Block() == nil {
+		return nil
+	}
+	if inAnyLoop(in.Block()) {
+		return nil
+	}
+	for _, r := range returnsOf(lit) {
+		if !in.Block().Dominates(r.Block()) {
+			return nil
+		}
+	}
+	// the literal is used once, as the deferred function
+	var found *ssa.Defer
+	uses := 0
+	instrsOf(fn, func(x ssa.Instruction) {
+		switch y := x.(type) {
+		case *ssa.MakeClosure:
+			if y.Fn == lit {
+				for _, r := range *y.Referrers() {
+					uses++
+					if d, ok := r.(*ssa.Defer); ok && d.Common().Value == y {
+						found = d
+					}
+				}
+			}
+		case ssa.CallInstruction:
+			if y.Common().Value == ssa.Value(lit) {
+				uses++
+				if d, ok := y.(*ssa.Defer); ok {
+					found = d
+				}
+			}
+		}
+	})
+	if uses != 1 {
+		return nil
+	}
+	return found
+}
+
+// litParamBinding: the argument bound to a parameter of a function literal
+// that is called at exactly one site (and has no other use) in its parent.
+func litParamBinding(prm *ssa.Parameter) ssa.Value {
+	lit := prm.Parent()
+	if lit == nil || lit.Parent() == nil {
+		return nil
+	}
+	idx := -1
+	for i, q := range lit.Params {
+		if q == prm {
+			idx = i
+		}
+	}
+	if idx < 0 {
+		return nil
+	}
+	var site ssa.CallInstruction
+	uses := 0
+	instrsOf(lit.Parent(), func(x ssa.Instruction) {
+		switch y := x.(type) {
+		case *ssa.MakeClosure:
+			if y.Fn == lit {
+				for _, r := range *y.Referrers() {
+					uses++
+					if ci, ok := r.(ssa.CallInstruction); ok && ci.Common().Value == ssa.Value(y) {
+						site = ci
+					}
+				}
+			}
+		case ssa.CallInstruction:
+			if y.Common().Value == ssa.Value(lit) {
+				uses++
+				site = y
+			}
+		}
+	})
+	if uses != 1 || site == nil || idx >= len(site.Common().Args) {
+		return nil
+	}
+	return site.Common().Args[idx]
 }
